@@ -105,8 +105,8 @@ class parse_instructions:
     current offset -- opcode byte, operand count, operand values by kind (low six bits, ULEB128, SLEB128, 1/2/4-byte,
     address-sized, block) -- appends exactly it, and continues at the offset where its operands end; an opcode the table
     does not know is rejected; the walk runs up to (not including) end_offset"""
-    params = dict(self=Obj('CallFrameInfo', stream=Stream), structs=StructsT, offset=Nat, end_offset=Nat)
-    ghost = {"$B": "self.stream.B", "$W": "structs.address_size", "$S": "structs"}
+    params = dict(self=CFIT, structs=StructsT, offset=Nat, end_offset=Nat, pointer_encoding=Opt(U8))
+    ghost = {"$B": "self.stream.B", "$W": "structs.address_size", "$S": "structs", "$E": "pointer_encoding", "$A": "self.address"}
     returns = ListOf(Any)
     loops = {0: dict(
         ghost_init={"$off": "offset"}, ghost_update={"$off": "offset"}, ghost_step={"$o": "offset", "$n0": "len(instructions)"},
@@ -114,12 +114,12 @@ class parse_instructions:
         shapes={"instructions": ListOf(Any)},
         step=["known($B, $o)", "len(instructions) == $n0 + 1", C6_LAST + ".opcode == op8($B, $o)",
               "len(" + C6_LAST + ".args) == nargs($B, $o)",
-              "nargs($B, $o) < 1 or " + C6_LAST + ".args[0] == arg0($B, $o, $W, $S)",
+              "nargs($B, $o) < 1 or " + C6_LAST + ".args[0] == arg0($B, $o, $W, $S, $E, $A)",
               "nargs($B, $o) < 2 or " + C6_LAST + ".args[1] == arg1($B, $o, $W, $S)",
-              "offset == next_off($B, $o, $W, $S)", "$o < end_offset"],
+              "offset == next_off($B, $o, $W, $S, $E)", "$o < end_offset"],
         variant="len($B) + 1 - offset")}
     ensures = []
-    may_raise = ["ELFParseError", "DWARFError", "KeyError", "OverflowError"]
+    may_raise = ["ELFParseError", "DWARFError", "KeyError", "OverflowError", "AssertionError"]
 
 
 # ---------------------------------------------------------------- .eh_frame pointer encodings, FDE header
@@ -143,7 +143,8 @@ class parse_lsda_pointer:
     ensures = ["encoding != 0xff", "pe_known(encoding % 16)", "encoding // 16 == 0 or encoding // 16 == 1",
                "result == pe_val(self.stream.B, stream_offset, encoding % 16, structs.address_size)"
                " + ((self.address + stream_offset) if encoding // 16 == 1 else 0)",
-               "self.stream.pos == pe_end(self.stream.B, stream_offset, encoding % 16, structs.address_size)"]
+               "self.stream.pos == pe_end(self.stream.B, stream_offset, encoding % 16, structs.address_size)",
+               "self.stream.pos > stream_offset and self.stream.pos <= len(self.stream.B)"]
     may_raise = CFI_EXC
 
 
